@@ -118,7 +118,9 @@ def _parse_string(s):
     frac = float("0." + s_frac) * factor
     count = float("0" + s_count) * factor
 
-    assert count + frac == test
+    # Sanity check only: count + frac is rounded once more than test, and the
+    # power of ten left over from a large exponent is not exact, so allow a few ulp.
+    assert abs(count + frac - test) <= 4 * np.spacing(abs(test))
     return count, frac
 
 
